@@ -40,6 +40,12 @@ ASSUMPTIONS = [
     "a wds_read_signal call that does not return within 120 s or kills the process is reported as a violation",
 ]
 
+# The statement promises "never raises, returning None for anything it cannot decode"; the function is
+# annotated Optional[np.ndarray] and DESIGN.md words the oracle as "returns an ndarray or None".  With
+# STRICT_WDS_TYPE a return value that is neither (e.g. the NpzFile numpy.load yields for an npz archive
+# under an ".npy" key) is a violation; set it to False to accept any returned object.
+STRICT_WDS_TYPE = True
+
 AUDIO = ("wav16", "wav32", "flac", "aiff", "sph")
 ARRAY = ("npy", "npz", "npzc", "pt", "hdf5")
 CONTAINERS = AUDIO + ARRAY + ("raw",)
@@ -591,7 +597,9 @@ def check_wds_garbage(case):
                 raise Violation("%s terminated the process (wait status %d, item %d)" % (desc, status, i))
             raise HarnessError("forked batch lost item %d (status %d)" % (i, status))
         oc = outcomes[i]
-        require(oc in ("none", "ndarray"), "{} -> {} (item {})", desc, oc, i)
+        if oc.startswith("other ") and not STRICT_WDS_TYPE:
+            oc = "other"
+        require(oc in ("none", "ndarray", "other"), "{} -> {} (item {})", desc, oc, i)
         labels.append("result=" + oc)
         labels.append("key=" + (os.path.splitext(it["key"])[1] or "(no suffix)"))
         labels.append("base=" + (it["base"]["container"] if it["base"] else "random"))
